@@ -45,6 +45,7 @@ class DocEngine:
         cfg["src_family"] = rng.weighted([("template", 3), ("sample", 5)], "src_family")
         if prop == "C10":
             cfg["p_clone"] = rng.choice([0.15, 0.3, 0.6], "p_clone")
+            cfg["p_blind"] = rng.choice([0.0, 0.5, 0.9], "p_blind")
         if prop == "C15":
             cfg["start_empty"] = rng.chance(0.3, "start_empty")
         if prop == "C13":
@@ -239,6 +240,9 @@ class DocEngine:
                 op["reuse_buffer"] = True  # zip variants written to a buffer go to ONE buffer, one after the other
             if rng.chance(self.cfg["p_fault"], "fault?"):
                 op["fault"] = {"site": rng.choice(["writestr", "write_bytes", "bytesio_write", "mkdir", "rmtree", "zip_read", "zip_open_r", "read_bytes"], "fsite"), "k": rng.randint(1, 6, "fk"), "errno": rng.choice(["ENOSPC", "EIO"], "ferr"), "partial": rng.chance(0.5, "fpartial"), "at": rng.randint(-1, k - 1, "fat")}
+                if op["fault"]["at"] == -1:
+                    # the first save is where the parts not read yet are fetched
+                    op["fault"]["site"] = rng.choice(["zip_read", "zip_read", "zip_read", "zip_open_r", "read_bytes", "writestr"], "fsite0")
         elif name in ("ins_style", "ins_style_other"):
             op = doc_styles.gen_insert(self, rng, n, "main" if name == "ins_style" else "other")
             op["op"] = name
@@ -267,6 +271,10 @@ class DocEngine:
             pass
         if self.prop == "C10" and self.twin is not None and name not in ("clone_doc", "twin_save_over_source", "reopen") and rng.chance(0.5, "on"):
             op["on"] = "twin"
+        if self.prop == "C10" and self.twin is not None and rng.chance(self.cfg.get("p_blind", 0.5), "blind?"):
+            # reading the untouched twin loads its lazily loaded parts: in part of the steps it
+            # is left alone, so that a twin can still be lazy when the other one overwrites its source
+            op["observe_other"] = False
         if name == "merge_styles":
             op["src"] = "sample:" + rng.choice(["lpod_styles.odt", "span_style.odt", "md_style.odt", "example.odt", "background.odp", "example.odp", "frame_image.odp"], "msrc")
         return op
@@ -397,7 +405,7 @@ class DocEngine:
             self.twin = None
         active, other = (self.twin, self.sut) if on_twin else (self.sut, self.twin)
         snap = None
-        if other is not None and name not in ("touch",):
+        if other is not None and name not in ("touch",) and op.get("observe_other", True):
             try:
                 snap = self._twin_expected(other)  # (does not load anything: the other twin stays as lazy as it is)
             except Exception:
